@@ -34,6 +34,14 @@ var solvers = []solverSpec{
 	{"cvc5", []string{"cvc5", "--lang=smt2", "--incremental"}},
 }
 
+// retrySolvers: the portfolio of the second pass adds random seeds (quantifier-heavy goals are seed sensitive)
+var retrySolvers = append(append([]solverSpec{}, solvers...),
+	solverSpec{"z3-new/ematch/s3", []string{"z3-new", "-smt2", "auto_config=false", "smt.mbqi=false", "smt.random_seed=3"}},
+	solverSpec{"z3-new/ematch/s7", []string{"z3-new", "-smt2", "auto_config=false", "smt.mbqi=false", "smt.random_seed=7"}},
+	solverSpec{"z3-new/s5", []string{"z3-new", "-smt2", "smt.random_seed=5"}},
+	solverSpec{"z3/s2", []string{"z3", "-smt2", "smt.random_seed=2"}},
+)
+
 // emit writes the SMT-LIB file of one obligation, restricted to its cone of influence.
 func (vc *VC) emit(o *Obl, dir string, idx int) (string, int, error) {
 	need := map[string]bool{}
@@ -51,26 +59,25 @@ func (vc *VC) emit(o *Obl, dir string, idx int) (string, int, error) {
 		factSyms[i] = m
 	}
 	declared := map[string]bool{}
+	isConstSym := map[string]bool{}
 	for _, d := range vc.decls {
 		f := strings.Fields(d)
 		if len(f) >= 2 {
 			declared[f[1]] = true
+			if f[0] == "(declare-const" {
+				isConstSym[f[1]] = true
+			}
 		}
 	}
 	inclDef := map[int]bool{}
 	inclFact := map[int]bool{}
 	changed := true
-	isConst := func(s string) bool { return declared[s] }
 	for changed {
 		changed = false
 		for s := range need {
 			if i, ok := defIdx[s]; ok && !inclDef[i] {
 				inclDef[i] = true
-				before := len(need)
 				symbols(vc.defs[i].Term, need)
-				if len(need) != before {
-					changed = true
-				}
 				changed = true
 			}
 		}
@@ -78,26 +85,51 @@ func (vc *VC) emit(o *Obl, dir string, idx int) (string, int, error) {
 			if inclFact[i] {
 				continue
 			}
-			hit := false
-			all := true
+			// a fact about particular constants (a definition of fresh symbols, a frame of one loop) is relevant when one
+			// of its constants is; a closed axiom over function symbols only is relevant when one of its functions is used
+			nConst := 0
+			hitConst := false
+			hitFun := false
 			for s := range m {
-				if !isConst(s) {
+				if !declared[s] {
 					continue
 				}
-				if need[s] {
-					hit = true
-				} else if !builtinSym(s) {
-					all = false
+				if isConstSym[s] {
+					if s == "alloc0" || s == "str_empty" {
+						continue
+					}
+					nConst++
+					if need[s] {
+						hitConst = true
+					}
+				} else if need[s] {
+					hitFun = true
 				}
 			}
-			_ = all
-			if hit {
+			if (nConst > 0 && hitConst) || (nConst == 0 && hitFun) {
 				inclFact[i] = true
 				for s := range m {
 					if !need[s] {
 						need[s] = true
 						changed = true
 					}
+				}
+			}
+		}
+	}
+	macroUsed := false
+	for s := range need {
+		if s == "sid16" {
+			macroUsed = true
+		}
+	}
+	if macroUsed {
+		need["sum16"] = true
+		for i, m := range factSyms {
+			if m["sum16"] {
+				inclFact[i] = true
+				for s := range m {
+					need[s] = true
 				}
 			}
 		}
@@ -109,6 +141,13 @@ func (vc *VC) emit(o *Obl, dir string, idx int) (string, int, error) {
 		f := strings.Fields(d)
 		if len(f) >= 2 && need[f[1]] {
 			b.WriteString(d)
+			b.WriteByte('\n')
+		}
+	}
+	for _, m := range vc.macros {
+		name := strings.Fields(m)[1]
+		if need[name] || strings.Contains(o.PC+o.Goal, name) {
+			b.WriteString(m)
 			b.WriteByte('\n')
 		}
 	}
@@ -143,8 +182,15 @@ func (vc *VC) emit(o *Obl, dir string, idx int) (string, int, error) {
 		for _, sk := range sks {
 			fmt.Fprintf(&b, "(declare-const %s Int)\n", sk)
 		}
-		if len(sks) > 0 {
-			ctx := b.String()
+		ctx0 := b.String()
+		hasCand := len(sks) > 0
+		for _, sr := range vc.searchRes {
+			if strings.Contains(ctx0, sr) || strings.Contains(goal, sr) {
+				hasCand = true
+			}
+		}
+		if hasCand {
+			ctx := ctx0
 			var terms []string
 			nq := 0
 			for _, q := range vc.quants {
@@ -187,27 +233,69 @@ func (vc *VC) emit(o *Obl, dir string, idx int) (string, int, error) {
 					work = append(work, item{*q, 0})
 				}
 			}
+			// further candidate terms: results of binary searches and their predecessors
+			for _, sr := range vc.searchRes {
+				if strings.Contains(ctx, sr) || strings.Contains(goal, sr) {
+					terms = append(terms, sr)
+					if nq <= 6 {
+						terms = append(terms, "(- "+sr+" 1)")
+					}
+				}
+			}
+			// ground applications of the slot Skolem function are positions too
+			for _, g := range groundApps(ctx+goal, "u_slot") {
+				if len(terms) < 14 {
+					terms = append(terms, g)
+				}
+			}
 			n := 0
 			seen := map[string]bool{}
-			for len(work) > 0 && n < 240 {
+			qnames := map[string]string{}
+			for len(work) > 0 && n < 400 {
 				it := work[0]
 				work = work[1:]
-				for _, t := range terms {
-					inst := substSym(it.q.Inner, it.q.BV, t)
-					key := it.q.Text + "@" + t
+				vars := it.q.vars()
+				// all tuples of candidate terms for the bound variables
+				var tuples [][]string
+				var rec func(k int, cur []string)
+				rec = func(k int, cur []string) {
+					if len(tuples) > 150 {
+						return
+					}
+					if k == len(vars) {
+						tuples = append(tuples, append([]string(nil), cur...))
+						return
+					}
+					for _, t := range terms {
+						rec(k+1, append(cur, t))
+					}
+				}
+				rec(0, nil)
+				for _, tp := range tuples {
+					inst := it.q.Inner
+					for k, v := range vars {
+						inst = substSym(inst, v, tp[k])
+					}
+					key := it.q.Text + "@" + strings.Join(tp, ",")
 					if seen[key] {
 						continue
 					}
 					seen[key] = true
-					fmt.Fprintf(&b, "(assert (=> %s %s))\n", it.q.Text, inst)
+					qn, ok := qnames[it.q.Text]
+					if !ok {
+						qn = fmt.Sprintf("Q!%d", len(qnames))
+						qnames[it.q.Text] = qn
+						fmt.Fprintf(&b, "(declare-const %s Bool)\n(assert (=> %s %s))\n", qn, it.q.Text, qn)
+					}
+					fmt.Fprintf(&b, "(assert (=> %s %s))\n", qn, inst)
 					n++
-					if it.depth >= 1 {
+					if it.depth >= 1 || len(vars) > 1 {
 						continue
 					}
 					// quantifiers nested inside this one become instantiable once the outer variable is fixed
 					for _, q2 := range vc.quants {
 						if q2.BV != it.q.BV && strings.Contains(it.q.Inner, q2.Text) {
-							work = append(work, item{quantRec{BV: q2.BV, Text: substSym(q2.Text, it.q.BV, t), Inner: substSym(q2.Inner, it.q.BV, t)}, it.depth + 1})
+							work = append(work, item{quantRec{BV: q2.BV, More: q2.More, Text: substSym(q2.Text, it.q.BV, tp[0]), Inner: substSym(q2.Inner, it.q.BV, tp[0])}, it.depth + 1})
 						}
 					}
 				}
@@ -235,7 +323,7 @@ func builtinSym(s string) bool {
 func runSolver(ctx context.Context, sp solverSpec, file string, timeout time.Duration) (string, string, float64) {
 	args := append([]string{}, sp.Args[1:]...)
 	switch sp.Name {
-	case "z3", "z3-new", "z3-new/ematch":
+	case "z3", "z3-new", "z3-new/ematch", "z3-new/ematch/s3", "z3-new/ematch/s7", "z3-new/s5", "z3/s2":
 		args = append(args, fmt.Sprintf("-T:%d", int(timeout.Seconds())+1))
 	case "cvc5":
 		args = append(args, fmt.Sprintf("--tlimit=%d", timeout.Milliseconds()))
@@ -333,9 +421,12 @@ func (vc *VC) skolemizeGoal(goal string, cands []string) (string, []string) {
 		if pos && strings.HasPrefix(t, "(forall ") {
 			for _, q := range vc.quants {
 				if t == apply(q.Text, subs) {
-					sk := fmt.Sprintf("sk!%d", len(sks))
-					sks = append(sks, sk)
-					ns := append(append([]sub{}, subs...), sub{q.BV, sk})
+					ns := append([]sub{}, subs...)
+					for _, v := range q.vars() {
+						sk := fmt.Sprintf("sk!%d", len(sks))
+						sks = append(sks, sk)
+						ns = append(ns, sub{v, sk})
+					}
 					return walk(apply(q.Inner, ns), true, ns)
 				}
 			}
@@ -412,6 +503,39 @@ func splitSexp(t string) []string {
 	}
 	if start >= 0 {
 		out = append(out, inner[start:])
+	}
+	return out
+}
+
+// groundApps returns the distinct applications "(f ...)" in text that contain no quantified variable.
+func groundApps(text, f string) []string {
+	var out []string
+	seen := map[string]bool{}
+	pat := "(" + f + " "
+	for i := 0; i < len(text); {
+		j := strings.Index(text[i:], pat)
+		if j < 0 {
+			break
+		}
+		st := i + j
+		d := 0
+		k := st
+		for ; k < len(text); k++ {
+			if text[k] == '(' {
+				d++
+			} else if text[k] == ')' {
+				d--
+				if d == 0 {
+					break
+				}
+			}
+		}
+		app := text[st : k+1]
+		if !strings.Contains(app, "!q") && !seen[app] {
+			seen[app] = true
+			out = append(out, app)
+		}
+		i = st + len(pat)
 	}
 	return out
 }
